@@ -2115,8 +2115,27 @@ class LogicalFile:
         """Check objects defined for the DLISFile. Called before writing the file."""
 
         self._check_completeness()
+        self._check_sets_not_shared()
         self._check_channels_assigned_to_frames()
         self._check_defining_origin_params()
+
+    def _check_sets_not_shared(self) -> None:
+        """Check that none of the sets of this logical file is also used by another logical file of the DLIS.
+
+        Sets are looked up by type and set name in the whole DLIS file, so two logical files which use the same
+        set name (e.g. the default one) for a given type would both be written with all objects of that shared set.
+        """
+
+        for other in self.physical_file.logical_files:
+            if other is self:
+                continue
+            for set_type, set_dict in self._eflr_sets.items():
+                for set_name, eflr_set in set_dict.items():
+                    if other._eflr_sets.get(set_type, {}).get(set_name) is eflr_set:
+                        raise RuntimeError(
+                            f"{eflr_set} is used by more than one logical file; objects of different logical files "
+                            f"must be added to sets of different names (use the 'set_name' argument)"
+                        )
 
     def _check_defining_origin_params(self) -> None:
         """Check that the file_id of the defining origin is the same as the ID of the header."""
